@@ -7,7 +7,7 @@ All positions are clamped so that a shrunk case stays well-defined.
 """
 from . import fmt, gen
 
-RECORD_LEVEL = {"bad_byte", "qual_len", "drop_line", "dup_line", "bad_lead", "mate_missing", "mate_rename", "flip_base", "blank_line"}
+RECORD_LEVEL = {"drop_record", "bad_byte", "qual_len", "drop_line", "dup_line", "bad_lead", "mate_missing", "mate_rename", "flip_base", "blank_line"}
 BYTE_LEVEL = {"truncate", "gz_flip"}
 
 
@@ -57,6 +57,9 @@ def _apply_record_fault(f, plain, fastq, interleaved):
     elif kind == "mate_rename":
         i = base
         lines[i] = lines[i].replace("rd", "xq", 1)
+    elif kind == "drop_record":
+        # a mate missing in the middle of one file: every later pair is out of step
+        del lines[base : base + per]
     elif kind == "bad_byte":
         # a non-ASCII byte inside the sequence or quality line (lengths stay equal)
         i = base + f["line"] % per
